@@ -83,16 +83,16 @@ def check_C14():
     r, rows = arbint_rows()
     # declarations with a sanitizer: the obtainable set is the image of the valid inputs; compared on i8/u8 only
     if q and len(rows) > 160:
-        keep = [o for o in rows if o["known"]]
-        rest = [o for o in rows if not o["known"]]
+        # sanitizer declarations (the shape of the repaired defect 39e03ec) are always in the sample
+        keep = [o for o in rows if o["d"]["san"] and o["d"]["vmode"] == "std"]
+        rest = [o for o in rows if not (o["d"]["san"] and o["d"]["vmode"] == "std")]
         rows = rng.sample(keep, min(len(keep), 40)) + rng.sample(rest, 120)
     decls = instantiate(rows, rng, 1 if q else 3)
     cover = [d for d in decls if valid_size(d) <= 65536 and valid_size(d) >= 1]
     by_id = {d["id"]: d for d in decls}
 
     def rows_of(d):
-        # (single calls on sanitizer declarations are C09's subject: they panic by the open finding C09-int-sanitizer)
-        out = [] if d["san"] else [{"d": d["id"], "ep": "arb", "ins": byte_inputs(rng, 40 if q else 400)}]
+        out = [{"d": d["id"], "ep": "arb", "ins": byte_inputs(rng, 40 if q else 400)}]
         if valid_size(d) <= 65536 and valid_size(d) >= 1:
             out.append({"d": d["id"], "ep": "arb_cover", "ins": [None]})
         return out
@@ -272,8 +272,8 @@ def check_C09():
         model_panics.add((json.dumps(s, sort_keys=True), cls))
     # --- declarations
     if q:
-        ik = [o for o in irows if o["known"]]
-        io = [o for o in irows if not o["known"]]
+        ik = [o for o in irows if o["d"]["san"] and o["d"]["vmode"] == "std"]      # shape of the repaired defect 39e03ec
+        io = [o for o in irows if not (o["d"]["san"] and o["d"]["vmode"] == "std")]
         irows = rng.sample(ik, min(30, len(ik))) + rng.sample(io, min(70, len(io)))
         sk = [o for o in srows if o["known"]]
         so = [o for o in srows if not o["known"]]
